@@ -1,0 +1,10 @@
+//go:build verif
+
+package roprometheus
+
+// VerifSetLicenseBypass makes the plugin behave as if an enterprise licence were active (on=true)
+// or restores the regular licence check (on=false). It only exists in builds made with the
+// `verif` build tag (verification harness); regular builds do not compile this file.
+func VerifSetLicenseBypass(on bool) {
+	bypassLicenseCheck = on
+}
